@@ -567,8 +567,9 @@ func (sf *file) GetPassthroughFd(mergeBufferSize int64, mergeWorkerCount int) (u
 	// cache.PassThrough() is necessary to take over files
 	r, err := sf.gr.cache.Get(id, cache.PassThrough())
 	if err != nil {
-		if hasLargeChunk || mergeWorkerCount <= 0 {
-			// Without a worker nothing would fill the merge buffers (the file would be all zeros): merge sequentially.
+		if hasLargeChunk || mergeWorkerCount <= 0 || mergeBufferSize <= 0 {
+			// Without a worker nothing would fill the merge buffers (the file would be all zeros), and without a
+			// merge buffer there are no batches (an empty file has no large chunk: division by zero): merge sequentially.
 			if err := sf.prefetchEntireFileSequential(id); err != nil {
 				return 0, nil, err
 			}
